@@ -12,7 +12,7 @@ LEVEL = "model_checking"
 RULE = (
     "Exhaustive product: grid shape (n_n, n_e) in {1..3}x{1..4} x non-uniform axis vectors (increasing, decreasing, unsorted) x coordinate form {1-D axes, "
     "2-D meshgrid, 2-D non-meshgrid (must raise), mixed 1-D/2-D (must raise)} x 0..4 data variables x 0..3 extra coordinates x "
-    "dims {default, custom} x name-count mismatches (must raise) for make_xarray_grid; grid_to_table on the Dataset just built, "
+    "dims {default, custom} x name-count mismatches (must raise) for make_xarray_grid; non-meshgrids of 2.6e5 ... 5.2e5 nodes with one displaced cell (must raise); grid_to_table on the Dataset just built (and on a second grid with the same axis end points but other interior nodes), "
     "on named / unnamed DataArrays, with coordinates declared in either order, integer and float values; meshgrid_to_1d / "
     "meshgrid_from_1d round trips. Cell values are 1e4*v + 100*i + j so any transposition, flip or mis-pairing changes a value. "
     "Non-trivial: at least 2 rows and 2 columns with data."
@@ -30,6 +30,12 @@ NORTH = [8.0, 9.0, 20.5, 21.0, 40.25]
 
 
 def cases(tier, seed):
+    # grids of more than 2^18 nodes that are NOT meshgrids in ONE cell, placed in the first, a middle and the last row / column (round 8,
+    # seed C18-16: a block-wise meshgrid test that never looked at the rows after the last complete block): must be refused
+    for shp in ([700, 500], [1300, 400], [513, 512]):
+        for where in ("first", "middle", "last"):
+            for which in ("easting", "northing"):
+                yield dict(kind="bigmesh", nn=shp[0], ne=shp[1], where=where, which=which)
     for nn in ((1, 2, 3) if tier == "quick" else (1, 2, 3, 4, 5)):
         for ne in ((1, 2, 3, 4) if tier == "quick" else (1, 2, 3, 4, 5, 6)):
             for form in ("1d", "2d"):
@@ -97,6 +103,23 @@ def run(case, rec):
 
     kind = case["kind"]
     nn, ne = case["nn"], case["ne"]
+    if kind == "bigmesh":
+        e2, n2 = np.meshgrid(np.arange(ne, dtype=float) * 10.0, np.arange(nn, dtype=float) * 10.0 + 100.0)
+        ok = call(rec, vd.utils.meshgrid_to_1d, (e2, n2))
+        rec.check(not raised(ok) and np.array_equal(ok[0], e2[0]) and np.array_equal(ok[1], n2[:, 0]), "a valid %d x %d meshgrid was refused or mis-read: %r" % (nn, ne, ok if raised(ok) else "values"))
+        i = {"first": 0, "middle": nn // 2 + 1, "last": nn - 1}[case["where"]]
+        j = {"first": 1, "middle": ne // 2, "last": ne - 2}[case["where"]]
+        if case["which"] == "easting":
+            i = max(i, 1)              # row 0 defines the easting vector
+            e2[i, j] += 2.5
+        else:
+            j = max(j, 1)              # column 0 defines the northing vector
+            n2[i, j] -= 2.5
+        for fname, f in (("meshgrid_to_1d", lambda: vd.utils.meshgrid_to_1d((e2, n2))), ("make_xarray_grid", lambda: vd.make_xarray_grid((e2, n2), np.zeros((nn, ne)), "v"))):
+            got = call(rec, f)
+            rec.check(raised(got) and isinstance(got.exc, ValueError), "%s accepted a %d x %d grid whose %s is displaced in cell (%d, %d): not a meshgrid" % (fname, nn, ne, case["which"], i, j))
+        rec.cls("bigmesh")
+        return
     east, north = np.array(EAST[:ne]), np.array(NORTH[:nn])
     order = case.get("order")
     if order in ("desc_n", "desc_both"):
@@ -218,6 +241,20 @@ def run(case, rec):
         if raised(tab):
             return rec.check(False, "grid_to_table(DataArray) raised %r" % (tab,))
         _check_table(rec, tab, ("northing", "easting"), north, east, {colname: vals}, extras)
+        if nn >= 3 or ne >= 3:
+            # a SECOND grid in the same process with the same shape, dtypes and first / last axis values but other interior nodes (round 8,
+            # seed C18-15: coordinate columns memoised on the end points of the axes): its table must carry its own coordinates
+            north2, east2 = np.array(north, copy=True), np.array(east, copy=True)
+            if nn >= 3:
+                north2[1] = north[0] + (north[1] - north[0]) / 4
+            if ne >= 3:
+                east2[1] = east[0] + (east[1] - east[0]) * 3 / 4
+            da2 = xr.DataArray(np.array(vals, copy=True), coords={"northing": north2, "easting": east2}, dims=("northing", "easting"), name=da.name)
+            tab2 = call(rec, vd.grid_to_table, da2)
+            if raised(tab2):
+                rec.check(False, "grid_to_table(second DataArray) raised %r" % (tab2,))
+            else:
+                _check_table(rec, tab2, ("northing", "easting"), north2, east2, {colname: vals}, {})
         rec.trivial = nn < 2 or ne < 2
         rec.cls("dataarray/%s/%s" % (order, "named" if case["named"] else "unnamed"))
         return
